@@ -85,7 +85,7 @@ theorem codeAt_root (ti : TreeInfo) (t : GoNode) (hok : t.ok = true) :
     simpa using this
 
 theorem inFrag_spec {k : Nat} {TPx : TP} {ti : TreeInfo} {t : GoNode} (h : InFrag k TPx ti t = true) :
-    (toPatRoot TPx false t).isSome = true ∧ tier t ≤ k ∧ ti.rtl = false ∧ mapCapnum (mainCfg ti) 0 = 0 ∧
+    (toPatRoot TPx ti.rtl t).isSome = true ∧ tier t ≤ k ∧ (ti.rtl = false ∨ 7 ≤ k) ∧ mapCapnum (mainCfg ti) 0 = 0 ∧
       (6 ≤ tier t → ∀ g, slotOf ti g = g) := by
   simp only [InFrag, Bool.and_eq_true, decide_eq_true_eq, Bool.not_eq_true', beq_iff_eq, Bool.or_eq_true] at h
   refine ⟨h.1.1.1.1, h.1.1.1.2, h.1.1.2, h.1.2, ?_⟩
@@ -132,17 +132,17 @@ theorem stop_step_raw {X : Setup} {a : Nat} {s : VMState} (hpc : s.codepos = a) 
 /-- what the final state of an attempt says about the specification's answer -/
 structure Agrees (ti : TreeInfo) (se : Spec.Env) (pat : Pat) (i : Nat) (s : VMState) : Prop where
   /-- `runmatch.matchcount[0] > 0` exactly when the specification's attempt succeeds -/
-  verdict : VM.matched s = (Spec.attempt se pat false i).isSome
+  verdict : VM.matched s = (Spec.attempt se pat ti.rtl i).isSome
   /-- on success the interpreter stands at the end of the match … -/
-  pos : ∀ st, Spec.attempt se pat false i = some st → s.textpos = (st.pos : Int)
+  pos : ∀ st, Spec.attempt se pat ti.rtl i = some st → s.textpos = (st.pos : Int)
   /-- … and the capture arrays hold, slot by slot and in order, the intervals of the specification's capture log -/
-  caps : ∀ st, Spec.attempt se pat false i = some st → CapRep (slotOf ti) (capsize ti) s.cap st.caps
+  caps : ∀ st, Spec.attempt se pat ti.rtl i = some st → CapRep (slotOf ti) (capsize ti) s.cap st.caps
 
 /-- **the refinement on the fragment of a tier `k ≤ maxTier`**; from tier 4 on (general loops) the text must be strictly
     shorter than `MaxInt32` -/
 theorem compile_correct_upto (k : Nat) (hk : k ≤ maxTier) (ti : TreeInfo) (t : GoNode) (TPx : TP) (env : VM.Env)
     (se : Spec.Env) (pat : Pat) (i : Nat)
-    (hfrag : InFrag k TPx ti t = true) (hwf : treeWf ti t = true) (hpat : toPatRoot TPx false t = some pat)
+    (hfrag : InFrag k TPx ti t = true) (hwf : treeWf ti t = true) (hpat : toPatRoot TPx ti.rtl t = some pat)
     (hrel : EnvRel TPx (codeFromTree (mainCfg ti) t).2.sets env se) (hi : i ≤ se.n) (hlen : se.n ≤ 2147483647)
     (hlenS : 4 ≤ k → se.n < 2147483647) (hecma : 6 ≤ k → env.ecma = false) :
     ∃ s0 s n, VM.init (emit ti t) (i : Int) = .ok s0 ∧
@@ -153,7 +153,7 @@ theorem compile_correct_upto (k : Nat) (hk : k ≤ maxTier) (ti : TreeInfo) (t :
   obtain ⟨⟨hok, hcaps⟩, hbd⟩ := hwf
   obtain ⟨hlb, hroot, hstop⟩ := codeAt_root ti t hok
   let W := worldOf ti t TPx env se hrel hlen (tier t) (fun h => hlenS (by omega)) hid (fun h => hecma (by omega))
-  have hpr : toPat TPx false t = some (.cap 0 pat) := by
+  have hpr : toPat TPx ti.rtl t = some (.cap 0 pat) := by
     rw [ht]; simp [toPat, hbody]
   -- slot of group 0
   have hsl0 : slotOf ti 0 = 0 := by simp [slotOf, hslot0]
@@ -169,12 +169,12 @@ theorem compile_correct_upto (k : Nat) (hk : k ≤ maxTier) (ti : TreeInfo) (t :
   have he0 : Entry W.X 0 i [] [] [] s0 := ⟨rfl, hf0, rfl, rfl, rfl, capRep_init _ _⟩
   obtain ⟨s1, hr1, he1⟩ := lazybranch_leads (X := W.X) he0 hlb hroot.fetch_start
   have hwfst : St.wf se.n ⟨i, []⟩ := ⟨hi, by simp⟩
-  have hdel := node_delivers W (show W.k ≤ maxTier from Nat.le_trans htier hk) t 2 ⟨[], []⟩ (.cap 0 pat) (Nat.le_refl _) hpr hok hcaps hbd hroot (TabExt.refl _) i
+  have hdel := node_delivers W (show W.k ≤ maxTier from Nat.le_trans htier hk) t ti.rtl 2 ⟨[], []⟩ (.cap 0 pat) (Nat.le_refl _) hpr hok hcaps hbd hroot (TabExt.refl _) i
     [(0 : Int)] [] (i : Int) [] s1 hwfst (by simpa using he1)
   replace hdel : Delivers W.X (2 + size (mainCfg ti) t) [(0 : Int)] [] [] []
-      (m se (.cap 0 pat) false ⟨i, []⟩) s1 := hdel
+      (m se (.cap 0 pat) ti.rtl ⟨i, []⟩) s1 := hdel
   refine ⟨s0, ?_⟩
-  cases hrs : m se (.cap 0 pat) false ⟨i, []⟩ with
+  cases hrs : m se (.cap 0 pat) ti.rtl ⟨i, []⟩ with
   | nil =>
     rw [hrs] at hdel
     obtain ⟨s2, hr2, v', hf2⟩ := hdel
@@ -183,7 +183,7 @@ theorem compile_correct_upto (k : Nat) (hk : k ≤ maxTier) (ti : TreeInfo) (t :
     have hst := stop_step_raw hpc3 hop3 hstop
     obtain ⟨n, hn⟩ := run_of_reach ((hr1.trans hr2).trans hr3) hst
     refine ⟨s3, n, hinit, hn, ?_⟩
-    have hatt : Spec.attempt se pat false i = none := by simp [Spec.attempt, hrs]
+    have hatt : Spec.attempt se pat ti.rtl i = none := by simp [Spec.attempt, hrs]
     refine ⟨?_, by simp [hatt], by simp [hatt]⟩
     have hcnt := hcap3.cnt 0 hcs
     simp [VM.matched, hatt, hcnt]
@@ -193,9 +193,9 @@ theorem compile_correct_upto (k : Nat) (hk : k ≤ maxTier) (ti : TreeInfo) (t :
     have hst := stop_step he2 hstop
     obtain ⟨n, hn⟩ := run_of_reach (hr1.trans hr2) hst
     refine ⟨s2, n, hinit, hn, ?_⟩
-    have hatt : Spec.attempt se pat false i = some r := by simp [Spec.attempt, hrs]
+    have hatt : Spec.attempt se pat ti.rtl i = some r := by simp [Spec.attempt, hrs]
     refine ⟨?_, ?_, ?_⟩
-    · have hmem : r ∈ m se (.cap 0 pat) false ⟨i, []⟩ := by rw [hrs]; simp
+    · have hmem : r ∈ m se (.cap 0 pat) ti.rtl ⟨i, []⟩ := by rw [hrs]; simp
       simp only [m, List.mem_map] at hmem
       obtain ⟨y, _, hy⟩ := hmem
       have hcnt := he2.cap.cnt 0 hcs
@@ -209,10 +209,17 @@ theorem compile_correct_upto (k : Nat) (hk : k ≤ maxTier) (ti : TreeInfo) (t :
     · intro st hst'; rw [hatt] at hst'; cases hst'; exact he2.tp
     · intro st hst'; rw [hatt] at hst'; cases hst'; exact he2.cap
 
+/-- below tier 7 the fragment has only left-to-right trees -/
+theorem inFrag_ltr {k : Nat} (hk : k < 7) {TPx : TP} {ti : TreeInfo} {t : GoNode} (h : InFrag k TPx ti t = true) :
+    ti.rtl = false := by
+  rcases (inFrag_spec h).2.2.1 with h | h
+  · exact h
+  · omega
+
 theorem inFrag_mono {k k' : Nat} (hk : k ≤ k') {TPx : TP} {ti : TreeInfo} {t : GoNode} (h : InFrag k TPx ti t = true) :
     InFrag k' TPx ti t = true := by
   simp only [InFrag, Bool.and_eq_true, decide_eq_true_eq, Bool.not_eq_true', beq_iff_eq, Bool.or_eq_true] at h ⊢
-  exact ⟨⟨⟨⟨h.1.1.1.1, by omega⟩, h.1.1.2⟩, h.1.2⟩, h.2⟩
+  exact ⟨⟨⟨⟨h.1.1.1.1, by omega⟩, h.1.1.2.imp id (fun h2 => by omega)⟩, h.1.2⟩, h.2⟩
 
 /-! ## concrete instances for the non-vacuity examples of Props/C01 -/
 
@@ -298,5 +305,16 @@ def ccT10 : GoNode :=
 def ccT11 : GoNode :=
   .capture 0 (-1) (.exprcond3 (.poslook (.capture 1 (-1) (.char opOne false false 97))) (.multi false false [97, 98])
     (.char opOne false false 99))
+
+/-- a tree compiled with the option RightToLeft -/
+def ccInfoR (captop : Int) : TreeInfo := { captop := captop, capnumlist := none, caps := [], rtl := true }
+
+/-- `(?<=ab)c` -/
+def ccT12 : GoNode := .capture 0 (-1) (.concat [.poslook (.multi true false [97, 98]), .char opOne false false 99])
+
+/-- `(?:ab|c)+d` under RightToLeft: the parser stores the concatenation reversed -/
+def ccT13 : GoNode :=
+  .capture 0 (-1) (.concat [.char opOne true false 100,
+    .loop false 1 maxInt32 (.alt [.multi true false [97, 98], .char opOne true false 99])])
 
 end RegexVerif.Compile
